@@ -16,7 +16,7 @@ RULE = ("exhaustive: every profile over m <= 3 alternatives with <= 3 distinct b
         "profiles under the foreign type labels cat/wmd on a sample; random: m <= 8, <= 9 distinct ballots, "
         "multiplicities <= 50, tie-heavy generators (rotations with equal multiplicities, order + reverse, equal "
         "multiplicities, shared first choices, first-place majorities, single alternative, approval profiles with "
-        "forced equal satisfaction scores). histories (550 quick / 7000 thorough, ~10% of the random cases): ONE OrdinalInstance object filled through append_order / append_order_array / append_order_list / append_vote_map, every rule called, ballots repeating existing orders appended (only multiplicities move, majority flipped), rules called again on the same object, interleaved rule A / append / rule B / rule A; each answer judged against the model on the instance's current multiplicity table. call sequences (300 quick): a call that raises inside a decorated body (missing k, k=0, str k, empty instance, unexpected keyword; not judged) followed IN THE SAME PROCESS by every rule on out-of-domain / in-domain instances (judged: guards and winners); storage order (500 quick): instance.orders permuted in place and / or the multiplicity dict rebuilt in another key order with the same content, then every rule. categorical gate cases (600 quick): real CategoricalInstance objects with 1 / 2 / 3 categories, complete or not, with and without an empty second category, accepted and rejected by is_approval, every rule (all must refuse except satisfaction approval on the accepted ones), each with its matching ordinal instance. non-trivial = >= 2 alternatives, >= 2 distinct ballots, some multiplicity > 1")
+        "forced equal satisfaction scores). histories (550 quick / 7000 thorough, ~10% of the random cases): ONE OrdinalInstance object filled through append_order / append_order_array / append_order_list / append_vote_map, every rule called, ballots repeating existing orders appended (only multiplicities move, majority flipped), rules called again on the same object, interleaved rule A / append / rule B / rule A, then in-place edits of the multiplicity table + recompute_cardinality_param that keep all three counters (voters moved to another ballot, two multiplicities swapped) and every rule again; each answer judged against the model on the instance's current multiplicity table. call sequences (300 quick): a call that raises inside a decorated body (missing k, k=0, str k, empty instance, unexpected keyword; not judged) followed IN THE SAME PROCESS by every rule on out-of-domain / in-domain instances (judged: guards and winners); storage order (500 quick): instance.orders permuted in place and / or the multiplicity dict rebuilt in another key order with the same content, then every rule. categorical gate cases (600 quick): real CategoricalInstance objects with 1 / 2 / 3 categories, complete or not, with and without an empty second category, accepted and rejected by is_approval, every rule (all must refuse except satisfaction approval on the accepted ones), each with its matching ordinal instance. non-trivial = >= 2 alternatives, >= 2 distinct ballots, some multiplicity > 1")
 EXHAUSTIVE = {"quick": "m<=3, n<=3 distinct ballots, multiplicities<=2, soc/soi/toc/toi, all 7 rules, k=1..m+2",
               "thorough": "m<=3, n<=3 distinct ballots, multiplicities<=2 (and m<=3, n<=2, multiplicities<=3), "
                           "soc/soi/toc/toi, all 7 rules, k=1..m+2"}
@@ -361,6 +361,26 @@ def hist_snapshot(inst):
             [[[[int(a) for a in c] for c in o], int(k)] for o, k in inst.multiplicity.items()]]
 
 
+EDIT_MODES = ["in-place edit: all voters but one of a ballot moved to another ballot (multiplicity table + "
+              "recompute_cardinality_param; num_voters, num_unique_orders, num_alternatives unchanged)",
+              "in-place edit: multiplicities of two ballots swapped (same counters)"]
+
+
+def hist_edit(inst, mode, x, y):
+    """voters change their mind: the public multiplicity table is edited in place, then the documented
+    recompute_cardinality_param(); the number of voters, of distinct orders and of alternatives stay what they were"""
+    kx, ky = tuple(tuple(c) for c in x), tuple(tuple(c) for c in y)
+    if kx == ky or kx not in inst.multiplicity or ky not in inst.multiplicity:
+        return
+    if mode == 0:
+        d = inst.multiplicity[kx] - 1
+        inst.multiplicity[kx] -= d
+        inst.multiplicity[ky] += d
+    else:
+        inst.multiplicity[kx], inst.multiplicity[ky] = inst.multiplicity[ky], inst.multiplicity[kx]
+    inst.recompute_cardinality_param()
+
+
 def hist_run(actions, call_rule, default_sel):
     """-> [[snapshot, [[rule, k, result], ...]], ...], one entry per call action; the instance is never rebuilt"""
     from preflibtools.instances import OrdinalInstance
@@ -369,6 +389,8 @@ def hist_run(actions, call_rule, default_sel):
     for act in actions:
         if act[0] == 0:
             hist_apply(inst, act[1], act[2])
+        elif act[0] == 2:
+            hist_edit(inst, act[1], act[2], act[3])
         else:
             snap = hist_snapshot(inst)
             sel = act[1] or default_sel(len(snap[1]))
@@ -424,6 +446,14 @@ def gen_history_actions(rng, shape_dt, n_rules, pick_sel):
             actions.append([1, A])
         else:
             actions.append([1, []])
+    if len(ballots) >= 2:
+        hi = max(range(len(ballots)), key=lambda j: counts[j])
+        others = [j for j in range(len(ballots)) if j != hi]
+        actions.append([2, 0, ballots[hi], ballots[rng.choice(others)]])
+        actions.append([1, []])
+        a, b = rng.sample(range(len(ballots)), 2)
+        actions.append([2, 1, ballots[a], ballots[b]])
+        actions.append([1, []])
     return actions
 
 
@@ -482,6 +512,8 @@ def history_stats(c, r, mres, names, n_fixed):
     for a in c["payload"]:
         if a[0] == 0:
             out.append("history: " + HIST_METHODS[a[1]])
+        elif a[0] == 2:
+            out.append("history: " + EDIT_MODES[a[1]][:60])
     seen = {}
     changed = set()
     if isinstance(r, list):
@@ -515,7 +547,7 @@ def shrink_history(c):
                     yield dict(c, payload=acts[:i] + [[0, a[1], nb]] + acts[i + 1:])
                 if len(a[2]) > 1:
                     yield dict(c, payload=acts[:i] + [[0, a[1], a[2][:j] + a[2][j + 1:]]] + acts[i + 1:])
-        elif not a[1]:
+        elif a[0] == 1 and not a[1]:
             for sel in _default_sel(3)[:6]:
                 yield dict(c, payload=acts[:i] + [[1, [sel]]] + acts[i + 1:])
 
@@ -996,6 +1028,8 @@ def describe_history(c, names):
     for a in c["payload"]:
         if a[0] == 0:
             out.append({HIST_METHODS[a[1]]: [{"order": o, "times": k} for o, k in a[2]]})
+        elif a[0] == 2:
+            out.append({EDIT_MODES[a[1]]: {"from": a[2], "to": a[3]}})
         else:
             out.append({"call": "every rule" if not a[1] else [names[r] + (" k=%d" % k if k else "") for r, k in a[1]]})
     return {"op": c["op"], "history_on_one_instance_object": out}
